@@ -170,6 +170,9 @@ void spsc_body(const mc::Params& P) {
     mc::spawn([&] { // consumer
       auto check_result = [&](int want_max, int got, int pushes_done_before, int pushes_started_after, int nc) {
         (void)want_max;
+        // under the weak-memory option a thread's view of its peer may lag behind real time, so
+        // "completed before the call started" does not imply "visible to the call"
+        if (mc_get_opt(MC_OPT_WM)) return;
         if (got == 0)
           MC_CHECK(pushes_done_before - nc <= 0, "pop refused although %d element(s) had been completely pushed and not popped", pushes_done_before - nc);
         else
@@ -242,7 +245,7 @@ void spsc_body(const mc::Params& P) {
         push_started.add(did - want);
         int pops_started_after = pop_started.get();
         // occupancy during the call was at most np - pops_before and at least np - pops_started_after
-        if (did < want) MC_CHECK(np + did - pops_before >= cap, "push refused although at most %d of %ld slots were in use", np + did - pops_before, cap);
+        if (did < want && !mc_get_opt(MC_OPT_WM)) MC_CHECK(np + did - pops_before >= cap, "push refused although at most %d of %ld slots were in use", np + did - pops_before, cap);
         if (did > 0) MC_CHECK(np + did - pops_started_after <= cap, "push accepted although the buffer held %ld elements throughout", cap);
         np += did;
         push_done.add(did);
